@@ -30,6 +30,15 @@ pub struct ExtraSpec {
     pub notar: bool,
 }
 
+/// A block nobody certifies: registered with the pool (a second block of an equivocating leader,
+/// a block obtained through repair) in any slot - also one that holds a finalised chain block.
+#[derive(Clone, Debug, Default, Serialize, Deserialize)]
+pub struct GhostSpec {
+    pub slot: u16,
+    /// chooses the parent among all earlier blocks of the world / genesis / an unknown block
+    pub parent: u16,
+}
+
 #[derive(Clone, Debug, Serialize, Deserialize)]
 pub enum WOp {
     /// deliver an item as a received certificate
@@ -57,6 +66,8 @@ pub struct WorldCase {
     /// finalisation kind per chain block (cycled)
     pub fin: Vec<Fin>,
     pub extras: Vec<ExtraSpec>,
+    #[serde(default)]
+    pub ghosts: Vec<GhostSpec>,
     pub seed: u32,
     /// how far (in items) an op may stray from the in-order position; large = random order
     pub spread: u16,
@@ -251,6 +262,17 @@ impl World {
                 items.push(Item { kind: CKind::Skip, slot, tag: 0, primary, fallback });
             }
         }
+        // ghosts: uncertified blocks, possibly in slots that hold a (finalised) chain block
+        for (i, g) in case.ghosts.iter().enumerate() {
+            let slot = 1 + pick_idx(g.slot, last_slot as usize) as u64;
+            let mut earlier: Vec<(u64, u64)> = std::iter::once((0, 0)).chain(blocks.iter().filter(|b| b.slot < slot).map(|b| (b.slot, b.tag))).collect();
+            if slot > 1 {
+                // a parent the node never hears about otherwise
+                earlier.push((slot - 1, 390 + i as u64));
+            }
+            let parent = earlier[pick_idx(g.parent, earlier.len())];
+            blocks.push(WBlock { slot, tag: 300 + i as u64, parent, chain: false });
+        }
         items.sort_by_key(|i| (i.slot, i.kind));
         blocks.sort_by_key(|b| (b.slot, b.tag));
         World { last_slot, blocks, items, n }
@@ -285,10 +307,11 @@ pub fn world_strategy(max_windows: usize, standstill: bool) -> BoxedStrategy<Wor
         prop::collection::vec(prop_oneof![2 => Just(0u8), 1 => Just(1u8), 2 => Just(2u8), 1 => Just(3u8), 4 => Just(4u8)], 2..=max_windows),
         prop::collection::vec(fin, 1..=8),
         prop::collection::vec(extra, 0..=5),
+        prop::collection::vec((any::<u16>(), any::<u16>()).prop_map(|(slot, parent)| GhostSpec { slot, parent }), 0..=3),
         any::<u32>(),
         prop_oneof![2 => Just(2u16), 2 => Just(8u16), 2 => Just(30u16), 1 => Just(1000u16)],
     )
-        .prop_flat_map(move |(stakes, own, chain_len, fin, extras, seed, spread)| {
+        .prop_flat_map(move |(stakes, own, chain_len, fin, extras, ghosts, seed, spread)| {
             let slots = chain_len.len() * 4;
             let n = stakes.len();
             let max_ops = slots * (3 + n);
@@ -304,8 +327,8 @@ pub fn world_strategy(max_windows: usize, standstill: bool) -> BoxedStrategy<Wor
                 }
                 proptest::strategy::Union::new_weighted(v)
             };
-            (Just(stakes), Just(own), Just(chain_len), Just(fin), Just(extras), Just(seed), Just(spread), prop::collection::vec(op, 0..=max_ops))
+            (Just(stakes), Just(own), Just(chain_len), Just(fin), Just(extras), Just(ghosts), Just(seed), Just(spread), prop::collection::vec(op, 0..=max_ops))
         })
-        .prop_map(|(stakes, own, chain_len, fin, extras, seed, spread, ops)| WorldCase { stakes, own, chain_len, fin, extras, seed, spread, ops })
+        .prop_map(|(stakes, own, chain_len, fin, extras, ghosts, seed, spread, ops)| WorldCase { stakes, own, chain_len, fin, extras, ghosts, seed, spread, ops })
         .boxed()
 }
